@@ -70,6 +70,8 @@ func TestDrive(t *testing.T) {
 				d.planFaults(a, b)
 			case "cancel":
 				d.planCancel(a, b)
+			case "faultsR":
+				d.planFaultsR(a, b)
 			case "random":
 				d.planRandom(a, false)
 			case "ext":
@@ -140,7 +142,8 @@ func (d *driver) dfs(base Scenario, cap int) int {
 }
 
 func (d *driver) shapeOpts() vh.ShapeOpts {
-	return vh.ShapeOpts{Foreign: true, Dup: true, Subjects: true, Docker: true, Artifact: true, Empty: true}
+	return vh.ShapeOpts{Foreign: true, Dup: true, Subjects: true, Docker: true, Artifact: true, Empty: true,
+		Alias: d.rng.Intn(2) == 0, Titles: d.rng.Intn(2) == 0}
 }
 
 // planExh: every successor relation on <= n nodes, every link-closed initial
@@ -206,12 +209,43 @@ func (d *driver) planCancel(n, k int) {
 			for i := 0; i < k; i++ {
 				seed := d.rng.Int63()
 				c := 1 + d.rng.Intn(3)
-				for step := 1; ; step++ {
-					sc := Scenario{Nodes: nodes, API: "copygraph", Root: size, C: c, Cancel: step, Seed: seed}
-					r := d.run(&sc)
-					if len(r.Choices) < step {
-						break // the call finished before this step existed
+				for _, mode := range []string{"before", "after"} {
+					for step := 1; ; step++ {
+						sc := Scenario{Nodes: nodes, API: "copygraph", Root: size, C: c, Cancel: step, CMode: mode, Seed: seed}
+						r := d.run(&sc)
+						if len(r.Choices) < step {
+							break // the call finished before this step existed
+						}
 					}
+				}
+				pre := Scenario{Nodes: nodes, API: "copygraph", Root: size, C: c, Cancel: -1, Seed: seed}
+				d.run(&pre)
+			}
+		}
+	}
+}
+
+// planFaultsR: random shapes with 4-6 nodes; every single fault (operation,
+// node, phase), k seeded schedules each; copygraph and extcopygraph.
+func (d *driver) planFaultsR(count, k int) {
+	d.plan = "faultsR"
+	for i := 0; i < count; i++ {
+		n := 4 + d.rng.Intn(3)
+		succ := vh.RandomSucc(n, d.rng, 35+d.rng.Intn(30))
+		nodes := vh.ShapeFromSucc(succ, d.rng, vh.ShapeOpts{Subjects: true, Dup: true})
+		g, _ := vh.Build(nodes, "x")
+		subsets := g.ClosedSubsets()
+		for node := 1; node <= n; node++ {
+			for _, f := range faultOps {
+				f.Node = node
+				for j := 0; j < k; j++ {
+					sc := Scenario{Nodes: nodes, API: "copygraph", Root: n, C: 1 + d.rng.Intn(3),
+						Dst0: subsets[d.rng.Intn(len(subsets))], Faults: []Fault{f}, Seed: d.rng.Int63()}
+					if d.rng.Intn(3) == 0 {
+						sc.API = "extcopygraph"
+						sc.Root = 1 + d.rng.Intn(n)
+					}
+					d.run(&sc)
 				}
 			}
 		}
@@ -259,16 +293,28 @@ func (d *driver) planRandom(count int, ext bool) {
 				}
 			}
 		}
-		switch d.rng.Intn(4) {
+		sc.SrcKind = []string{"memory", "memory", "oci"}[d.rng.Intn(3)]
+		sc.DstKind = []string{"memory", "memory", "oci", "file"}[d.rng.Intn(4)]
+		switch d.rng.Intn(5) {
 		case 0:
 			f := faultOps[d.rng.Intn(len(faultOps))]
 			f.Node = 1 + d.rng.Intn(n)
 			sc.Faults = []Fault{f}
+			if d.rng.Intn(4) == 0 {
+				f2 := faultOps[d.rng.Intn(len(faultOps))]
+				f2.Node = 1 + d.rng.Intn(n)
+				sc.Faults = append(sc.Faults, f2)
+			}
+			if ext && d.rng.Intn(3) == 0 {
+				sc.Faults = []Fault{{"pred", 1 + d.rng.Intn(n), "before"}}
+			}
 		case 1:
 			sc.CbErr = []Fault{{cbOps[d.rng.Intn(len(cbOps))], 1 + d.rng.Intn(n), "cb"}}
 		case 2:
-			if d.rng.Intn(2) == 0 {
-				sc.Cancel = 1 + d.rng.Intn(3*n)
+			sc.Cancel = 1 + d.rng.Intn(3*n)
+			sc.CMode = []string{"before", "after"}[d.rng.Intn(2)]
+			if d.rng.Intn(10) == 0 {
+				sc.Cancel = -1
 			}
 		}
 		d.run(&sc)
